@@ -14,7 +14,9 @@
 #include "monoclock.h"
 #include "network.h"
 #include "sock.h"
+#ifndef HC_BLACKBOX
 #include "sock_internal.h"
+#endif
 
 #define NFD 64
 #define QMAX 4096
@@ -88,7 +90,11 @@ int
 __wrap_connect(int s, const struct sockaddr * name, socklen_t namelen)
 {
 	const struct sockaddr_in * sin = (const struct sockaddr_in *)name;
+#ifdef HC_BLACKBOX
+	int idx = ntohs(sin->sin_port) - 1;	/* sock_resolve_one() takes ports 1..65535: address i has port i + 1 */
+#else
 	int idx = ntohs(sin->sin_port);
+#endif
 
 	(void)namelen;
 	conn_outcome[s] = addr_outcome[idx];
@@ -315,8 +321,12 @@ free_sas(void)
 
 	if (C.sas == NULL) return;
 	for (i = 0; i < C.n; i++) {
+#ifdef HC_BLACKBOX
+		sock_addr_free(C.sas[i]);
+#else
 		free(C.sas[i]->name);
 		free(C.sas[i]);
+#endif
 	}
 	free(C.sas);
 	C.sas = NULL;
@@ -460,6 +470,17 @@ main(void)
 				C.n = n;
 				C.sas = malloc(sizeof(struct sock_addr *) * (size_t)(n + 1));
 				for (i = 0; i < n; i++) {
+#ifdef HC_BLACKBOX
+					/* -DHC_BLACKBOX (notes/blackbox.md): the members of struct sock_addr (sock_internal.h) are
+					 * not named; the same AF_INET / SOCK_STREAM address comes from the public parser */
+					char lit[32];
+
+					addr_outcome[i] = hc_tok[2][i];
+					snprintf(lit, sizeof(lit), "[127.0.0.1]:%d", i + 1);
+					if ((C.sas[i] = sock_resolve_one(lit, 0)) == NULL)
+						abort();
+					continue;
+#else
 					struct sockaddr_in * sin = calloc(1, sizeof(*sin));
 
 					addr_outcome[i] = hc_tok[2][i];
@@ -470,6 +491,7 @@ main(void)
 					C.sas[i]->ai_socktype = SOCK_STREAM;
 					C.sas[i]->name = (struct sockaddr *)sin;
 					C.sas[i]->namelen = sizeof(*sin);
+#endif
 				}
 				C.sas[n] = NULL;
 				if (strcmp(hc_tok[1], "-") == 0)
